@@ -40,7 +40,7 @@ def showEnc (R : BlockRSA) (pad : Int) (n : Nat) : String :=
   | .diverge => "diverge"
 
 def optBits (s : String) : Option (Bool × Int) :=
-  if s = "-" then some (false, 0) else s.toInt?.map fun b => (true, sizeOfBits b)
+  if s = "-" then some (false, 0) else s.toInt?.map fun b => (true, b)
 
 def handle : List String → String
   | ["accept", p, l, r] =>
